@@ -92,9 +92,15 @@ begin
   obs(Req.Id, Resp.Token)
   acc = 0
   forRange k := Req.List {
+    if k == 1 {
+      continue
+    }
     acc = acc + Req.List[k]
   }
-  for i = 0; i < 3; i += 1 {
+  for i = 0; i < 9; i += 1 {
+    if i == 3 {
+      break
+    }
     acc = acc + i
   }
   Resp.Sum3 = acc
@@ -562,8 +568,8 @@ func (s *Storm) checkIdentity(d *done, when string) {
 		if _, ran := d.res["q3"]; ran && d.resp.MV != 2*id {
 			s.find("iso", m+"/foreign-map-element", fmt.Sprintf("%s: request %d: Req.Tab[\"k\"] + Req.Tab[kv] gave %d, its own map gives %d", m, id, d.resp.MV, 2*id), map[string]interface{}{"call": d.call})
 		}
-		if _, ran := d.res["q3"]; ran && (d.resp.Sum3 != 3*id+6 || d.resp.Grade != 2) {
-			s.find("iso", m+"/loop-or-branch-disturbed", fmt.Sprintf("%s: request %d: forRange+for over its own list gave %d (expected %d), else-if chain gave grade %d (expected 2)", m, id, d.resp.Sum3, 3*id+6, d.resp.Grade), map[string]interface{}{"call": d.call})
+		if _, ran := d.res["q3"]; ran && (d.resp.Sum3 != 2*id+5 || d.resp.Grade != 2) {
+			s.find("iso", m+"/loop-or-branch-disturbed", fmt.Sprintf("%s: request %d: forRange+for over its own list gave %d (expected %d), else-if chain gave grade %d (expected 2)", m, id, d.resp.Sum3, 2*id+5, d.resp.Grade), map[string]interface{}{"call": d.call})
 		}
 		if _, ran := d.res["q4"]; ran {
 			if d.fail2 {
